@@ -99,6 +99,14 @@ def check(prog, rep, tier):
         if not seq:
             continue
         seen_close = True
+        fpf = ("f", SELF, FP, 0)
+        isopen = any(strip_epochs(c.atom) == ("cmp", "isnot", fpf, C(None)) and c.truth or strip_epochs(c.atom) == ("cmp", "is", fpf, C(None)) and not c.truth for c in p.conds) and \
+            any(strip_epochs(c.atom) == ("f", fpf, "closed", 0) and not c.truth for c in p.conds)
+        if not isopen:
+            rep.bad("C11.write-order", f"{CTX}.close", "release on the wrong branch",
+                    "close syncs and releases the file on a path that has not established 'file pointer is set and not closed' - and therefore does nothing when the file is open", cl.where())
+            okc = False
+            break
         want = ["enter __update", "map.flush", "file.seek", "file.write", "file.flush", "map.close", "file.close"]
         if seq != want:
             rep.bad("C11.write-order", f"{CTX}.close", f"order {seq}", f"close performs {seq}; required {want}: the final count must reach the file before it is released", cl.where())
@@ -259,5 +267,6 @@ MUTANTS = [
     Mutant("D12 re-introduced: clear without sync", _B, del_stmt("BloomFilterOnDisk", "clear", "self.__update()"), rule="C11.mutators"),
     Mutant("export truncates the file to the bit array", _B, insert_stmt("BloomFilterOnDisk", "export", "self.__file_pointer.truncate(self.bloom_length)"), rule="C11.file-writers"),
     Mutant("resolve_path memoised with lru_cache", "utilities.py", _decorate("resolve_path", "lru_cache(maxsize=256)"), rule="C11.path"),
+    Mutant("close guard negated", _B, replace_expr("BloomFilterOnDisk", "close", "self.__file_pointer is not None and (not self.__file_pointer.closed)", "not (self.__file_pointer is not None and (not self.__file_pointer.closed))"), rule="C11.write-order"),
     Mutant("close: file closed before the final sync", _B, replace_stmt("BloomFilterOnDisk", "close", "self.__update()", "self._bloom.close()\nself.__update()"), rule="C11.write-order"),
 ]
